@@ -185,6 +185,9 @@ def check_spherical(ctx):
                 comp[a.targets[0].id] = last.value
     call = e['node']
     axes = [comp.get(norm_text(x)) for x in call.args[:3]]
+    if None in axes or len(axes) != 3:
+        # on values: the component tag of the three arguments as the call received them
+        axes = [(x.axis if x is not None else None) for x in list(e['args'])[:3]]
     ctx.ob('R3', fc, e['node'], True if axes == [0, 1, 2] else (None if None in axes else False),
            'components 0, 1, 2 passed as x, y, z' if axes == [0, 1, 2] else f'components {axes} passed as x, y, z')
     # inside _cart2sph
@@ -201,6 +204,8 @@ def check_spherical(ctx):
                 ctx.ob('R3', f2, n, True if ok else (None if not a else False), 'elevation = arcsin(z / r)' if ok else f'elevation computed as arcsin({a[0] if a else ""})')
             elif fn == 'sqrt':
                 t = a[0].replace(' ', '') if a else ''
+                for p_ in params:
+                    t = t.replace(f'{p_}*{p_}', f'{p_}**2').replace(f'np.square({p_})', f'{p_}**2')
                 ok = all(f'{p}**2' in t for p in params) and t.count('+') == 2
                 ctx.ob('R3', f2, n, True if ok else None, 'r = sqrt(x^2 + y^2 + z^2)' if ok else 'radius formula not recognised')
     # return order and stack order
